@@ -55,7 +55,11 @@ Admitted(I) == LET A0 == Admitted0(I)
                   ELSE A0
 
 \* ------------------------------------------------------------- C01: legality under the eligibility matrix
-Legal(I, T, C) == /\ T # {} /\ C # {} /\ T \cap C = {}
+\* I.missingRequired: the eligibility table given by the user has a row that forbids exclusion for a geo that is not
+\* in the data - no design can place that geo, so no design is legal (the documented outcome is a ValueError from
+\* the data object)
+Legal(I, T, C) == /\ ~I.missingRequired
+                  /\ T # {} /\ C # {} /\ T \cap C = {}
                   /\ T \cup C \subseteq Geos(I)
                   /\ \A g \in T : CanT(I.elig[g])
                   /\ \A g \in C : CanC(I.elig[g])
